@@ -138,6 +138,7 @@ class SimFS:
         self.sticky = []  # persistent conditions: [(class, path or None, errno name, ops left)]
         self.open_files = []
         self.probes = {}
+        self.recycle_inodes = False  # knob: reuse the inode numbers of deleted files
         self.blksize = 4096  # st_blksize: the size of the buffered layer's buffer (as on ext4/tmpfs)
 
     # ------------------------------------------------------------------ tree
@@ -148,6 +149,19 @@ class SimFS:
         return base + self._ticks * 1e-3
 
     def _new(self, kind: str) -> Inode:
+        if getattr(self, "recycle_inodes", False) and kind == "f":
+            # ext4-style: the number of a deleted file is handed out again (what defeats caches
+            # keyed by (st_dev, st_ino))
+            busy = {id(sf.node) for sf in self.open_files} | {id(getattr(h, "node", None)) for h in getattr(self, "fds", {}).values()}
+            for ino in sorted(self.inodes):
+                old = self.inodes[ino]
+                if old.kind == "f" and old.nlink <= 0 and id(old) not in busy:
+                    node = Inode(ino, kind)
+                    node.epoch = self.power_epoch
+                    node.mtime = self.now()
+                    self.inodes[ino] = node
+                    self._probe("inode_number_recycled")
+                    return node
         node = Inode(self.next_ino, kind)
         node.epoch = self.power_epoch
         node.mtime = self.now()
@@ -378,6 +392,8 @@ class SimFS:
     @classmethod
     def from_image(cls, img) -> "SimFS":
         fs = cls()
+        fs.blksize = int(img.get("blksize") or 4096)
+        fs.recycle_inodes = bool(img.get("recycle_inodes"))
         for d in img.get("dirs", []):
             fs.h_mkdir(d)
         for p, text in img.get("files", {}).items():
